@@ -245,20 +245,23 @@ def main(run):
                 replay_only = ln[len("case: "):].strip()
         if replay_only is None:
             raise vlib.BuildError("no 'case:' line in " + run.replay)
-        (exc if replay_only.startswith("exc") else exe).append((replay_only, "replay", True))
+        if not replay_only.startswith("exw"):
+            (exc if replay_only.startswith("exc") else exe).append((replay_only, "replay", True))
     for ln in ([] if replay_only else vlib.read_corpus("C07")):
         (exc if ln.startswith("exc") else exe).append((ln, "corpus", True))
     for name, ins in ([] if replay_only else G.templates()):
         exc.append((G.exc_line(ins), "template", True))
         exc.append((G.exc_line(ins, mid0=65533), "template", True))      # mid wraps inside the case
-    for i in range(0 if replay_only else 6000 if quick else 120000):
+        exc.append((G.exc_line(ins, mid0=65535), "template", True))      # first request has mid 0
+        exc.append((G.exc_line([x.replace(":7:", ":0:") for x in ins], mid0=6), "template", True))  # peer mid 0
+    for i in range(0 if replay_only else 12000 if quick else 120000):
         honest = r.random() < 0.6
         maxr = r.choice([4, 4, 4, 1, 2, 7])
         exc.append((G.exc_line(["H%d" % r.choice([1, 1, 2, 3, 4, 5, 6, 7])] + G.random_exc(r, honest, maxr), maxr=maxr,
-                               mid0=r.choice([100, 65530, 65534, 0, 7, 999]),
+                               mid0=r.choice([100, 65530, 65534, 65535, 0, 7, 999]),
                                tok0=r.choice([0, 0, 254, 65534])),
                     "random-honest" if honest else "random-arbitrary", honest))
-    nfate = 6 if quick else 8
+    nfate = 7 if quick else 8
     for kind in (() if replay_only else ("real", "rfc")):
         for sty in G.STYLES:
             for fates in G.exhaustive_fates(nfate, 1500):
@@ -270,21 +273,23 @@ def main(run):
                 for fates in G.exhaustive_fates(9, 1900):
                     exe.append((G.exe_line(kind, [(sty, 0, 0)], fates, seed=5, adelay=2500),
                                 "exhaustive9-" + kind, True))
-    for i in range(0 if replay_only else 5000 if quick else 150000):
+    for i in range(0 if replay_only else 10000 if quick else 150000):
         kind = r.choice(["real", "real", "rfc"])
         nreq = r.choice([1, 2, 2, 3, 4])
         reqs = [(r.choice(G.STYLES), r.choice([1, 1, 1, 0]), r.choice([0, 0, 5, 400, 1800])) for _ in range(nreq)]
         fates = G.random_fates(r, r.choice([4, 8, 12, 20]), heavy=(r.random() < 0.25))
         exe.append((G.exe_line(kind, reqs, fates, seed=r.randrange(1, 1 << 30), method=r.choice([1, 1, 2, 3, 4]),
-                               cmid0=r.choice([100, 65533, 41527, 41528, 41529]),
+                               cmid0=r.choice([100, 65533, 65535, 41527, 41528, 41529]), smid0=r.choice([-1, -1, 65535, 99, 100]),
                                adelay=r.choice([1, 300, 1200, 2500, 4000]),
                                dflt=r.choice([0, 3, 40, 900]), nstart=r.choice([0, 16, 16])),
                     "random-" + kind, True))
 
     # ------------------------------------------------------------ message-id wrap (findings C07-F5a/b)
-    if not replay_only:
+    if not replay_only or replay_only.startswith("exw"):
         wl = ["exw 65535 100 0", "exw 65534 100 0", "exw 65535 40000 0", "exw 300 65400 0",
               "exw 65535 100 1", "exw 65534 100 1", "exw 300 65400 1"]
+        if replay_only:
+            wl = [replay_only]
         wm, wc, _ = run_both(model, drv, wl)
         for ln, a, b in zip(wl, wm, wc):
             run.count(ln, True)
@@ -313,6 +318,12 @@ def main(run):
         run.hist("case_kind", "exc-" + kind)
         if i % 700 == 3:
             run.sample({"case": ln[:200], "impl": oc[i][:300]})
+        if "!shadow-session" in oc[i]:
+            V.violation("property fails on the implementation: during a step of one session the queued request "
+                        "of another session of the same context (same mid and token, never answered) left "
+                        "the send queue without a NACK: it is neither retransmitted nor NACKed",
+                        "case: %s\nobserved client trace (session under test; '!shadow-session-...' marks the step "
+                        "after which the other session's request was gone): %s\n" % (ln, oc[i]), "oracle")
         if om[i] != oc[i]:
             ndiff += 1
             if ndiff <= 3:
@@ -400,6 +411,38 @@ def main(run):
             elif o.startswith("nack:"):
                 run.hist("handler_calls", "NACK")
     run.cov["disagreements"] = ndiff
+    # ------------------------------------------------------------ the same cases with block mode on
+    # COAP_BLOCK_USE_LIBCOAP (what coap-client runs with) puts lg_crcv / lg_xmit bookkeeping and an
+    # RTAG option around every request; the exchange layer must behave the same: same cases, same
+    # outputs as the plain run (which was compared with the model and judged above)
+    if not replay_only:
+        # (scripted peers that are not honest are left out: a response carrying the number of an
+        # internal lg_crcv state token is mapped back to the application's token in block mode;
+        # of the simulations only the client's steps and the datagram log are compared - the extra
+        # lg_crcv timers make the run end later)
+        sub = [c[0] for c in exc[:(5000 if quick else 100000)] if c[2]] + [c[0] for c in exe[::(5 if quick else 2)]]
+        ob, crb = vlib.run_lines_robust(drv, sub, env={"C07_BLOCK_MODE": "1"}, max_restarts=6)
+        base = dict(zip([c[0] for c in exc], ocx))
+        base.update(dict(zip([c[0] for c in exe], oc)))
+
+        def core(out):
+            f = out.split(" || ")
+            if len(f) < 4:
+                return out
+            lg = " ".join("/".join(e.split("/")[:4]) for e in f[2].split())   # without delivery times
+            return f[0] + " || " + lg
+        nb = 0
+        for l, o in zip(sub, ob):
+            if core(base.get(l, "")) != core(o):
+                nb += 1
+                if nb <= 2:
+                    V.violation("with COAP_BLOCK_USE_LIBCOAP the client/server behave differently on a case of this "
+                                "property: plain=%s block=%s" % (str(base.get(l))[:200], o[:200]),
+                                "correspondence: block mode on vs off\ncase: %s\nplain: %s\nblock: %s\n"
+                                % (l, base.get(l), o), "blockmode", no_input=True)
+        run.cov["block_mode_cases"] = len(sub)
+        run.cov["block_mode_differences"] = nb
+
     # ------------------------------------------------------------ sanitizer variant (thorough)
     if not quick and not replay_only:
         drv_asan = vlib.build_driver("h_exchange", ["h_exchange.c"], variant="asan", wraps=WRAPS)
